@@ -87,8 +87,9 @@ PROPS = {
     },
     "C02": {
         "pkg": "hreader", "test": "TestC02", "level": "exploration",
-        "quick": T(16, 50, timeout=900), "thorough": T(16, 1500, timeout=7000),
-        "rule": "same generator as C01; oracle per emitted insert/delete/drop message: downstream collection id of the same-named collection, downstream partition id of the same-named partition, shard name among the collection's "
+        "quick": T(16, 0, timeout=900, tests=[{"test": "TestC02", "checks": 50}, {"test": "TestC02_SameName", "checks": 25}]),
+        "thorough": T(16, 0, timeout=7000, tests=[{"test": "TestC02", "checks": 1500}, {"test": "TestC02_SameName", "checks": 700}]),
+        "rule": "TestC02_SameName: the same over catalogs whose collections all have one name (one per database) with frequent late partition ids. same generator as C01; oracle per emitted insert/delete/drop message: downstream collection id of the same-named collection, downstream partition id of the same-named partition, shard name among the collection's "
                 "downstream vchannels with a bijective source->downstream shard relation, delivered on the output stream of the pchannel hosting that vchannel, pack positions name that pchannel, message positions name it or its vchannel and keep the source message id. "
                 "non-trivial = skewed placement, shared downstream channel, or late partition id; distinct = distinct catalog+scripts",
         "assumptions": ["go-deadlock detector disabled in the harness (toolchain artefact)", "cases in which no handler can own the target channel end in a ReplicateError event and are accepted"],
